@@ -22,12 +22,13 @@ structure JClient where
   id : String
   subs : List (String × Nat)
   ghost : Bool
+  pers : Bool := false
 
 def parseClient (j : Json) : Except String JClient := do
   let id := optStr j "id"
   let subsJ ← getArr j "subs"
   let subs := subsJ.toList.map fun s => (optStr s "f", (optInt s "q").toNat)
-  pure ⟨id, subs, optBool j "ghost"⟩
+  pure ⟨id, subs, optBool j "ghost", optBool j "pers"⟩
 
 /-- "3:1:p7" -/
 def parsePkt (s : String) : Packet :=
@@ -85,6 +86,11 @@ def inprocOne : Judge := liftJudge fun input obs => do
   let mut online : List String := real
   let mut sess : List (String × Sess) := real.map (fun c => (c, Sess.init))
   let mut unackObs : List (String × List (Nat × String)) := real.map (fun c => (c, []))
+  -- extension mqtt: ids consumed per client (model count) and, per observed pending id, the count at its publish;
+  -- `strict` (opt-in, set only by corpus lines) makes a tick demand EVERY unacknowledged message
+  let mut idCnt : List (String × Nat) := []
+  let mut pendSince : List (String × List (Nat × Nat)) := []
+  let strict := optBool input "strict_resend"
   let mut acc : Acc := {}
   let mut expected : Array Json := #[]
   let mut nontriv := false
@@ -135,6 +141,8 @@ def inprocOne : Judge := liftJudge fun input obs => do
         let full := fullOn && fullL.contains c
         let (s', want) := if delivered.contains c then publish true full ⟨topic, payload, q⟩ s else (s, [])
         sess := alSet c s' sess
+        let cntBefore := lookupD c idCnt 0
+        if delivered.contains c then idCnt := alSet c (cntBefore + 1) idCnt
         let want' := want.map fun p => { p with topic := "" }
         if !want'.isEmpty then expOut := expOut ++ [(c, want')]
         if got != want' then acc := acc.dis s!"event {i-1} client {c}: got [{showPkts got}], model [{showPkts want'}]"
@@ -162,8 +170,15 @@ def inprocOne : Judge := liftJudge fun input obs => do
           if p.qos == 1 then
             let u := lookupD c unackObs []
             if u.any (fun e => e.1 == p.id) then
-              acc := acc.fail "ids:pending-collision" s!"event {i-1} client {c}: id {p.id} still pending"
+              -- a full lap of the uint16 counter since the pending message was sent = the known wrap-around
+              let since := (alGet p.id (lookupD c pendSince [])).getD cntBefore
+              let wrapped := cntBefore ≥ since + 65536
+              acc := acc.fail (if wrapped then "ids:wrap-overwrote-pending" else "ids:pending-collision")
+                s!"event {i-1} client {c}: id {p.id} still pending ({cntBefore - since} ids consumed since it was sent)"
+              if wrapped then acc := acc.tag "ids:wrapped"
             unackObs := alSet c (u ++ [(p.id, p.payload)]) unackObs
+            let ps := lookupD c pendSince []
+            if (alGet p.id ps).isNone then pendSince := alSet c (ps ++ [(p.id, cntBefore)]) pendSince
     else if k == "a" then
       let c := optStr ev "c"
       let id := (optInt ev "id").toNat
@@ -173,6 +188,43 @@ def inprocOne : Judge := liftJudge fun input obs => do
         if (alGet id s.pending).isNone then acc := acc.tag "puback-bogus-id"
         sess := alSet c (puback id s) sess
         unackObs := alSet c ((lookupD c unackObs []).filter (fun e => e.1 != id)) unackObs
+        pendSince := alSet c ((lookupD c pendSince []).filter (fun e => e.1 != id)) pendSince
+    else if k == "mn" then
+      -- N sends of one QoS0 message (queues drained after each): observation = count, first and last packet
+      let topic := optStr ev "topic"
+      let payload := optStr ev "payload"
+      let n := min (optInt ev "n").toNat 70000
+      let lvO := split topic.toList
+      let hits := match lvO with | some lv => find tst.trie lv | none => []
+      let conn : Client → Bool := fun c => online.contains c
+      let delivered := send conn 0 (collapseMax hits)
+      acc := acc.tag "msg-burst-qos0"
+      for c in real do
+        let got := getOut so c
+        let gotCnt := match so.getObjVal? "cnt" with
+          | .ok o => (optInt o c).toNat
+          | .error _ => 0
+        let mut s := lookupD c sess Sess.init
+        let mut first : List Packet := []
+        let mut last : List Packet := []
+        let wantCnt := if delivered.contains c then n else 0
+        if delivered.contains c then
+          for j in [0:n] do
+            let (s', w) := publish true false ⟨topic, payload, 0⟩ s
+            s := s'
+            if j == 0 then first := w
+            if j + 1 == n && n > 1 then last := w
+          idCnt := alSet c (lookupD c idCnt 0 + n) idCnt
+        sess := alSet c s sess
+        let want' := (first ++ last).map fun p => { p with topic := "" }
+        if !want'.isEmpty then expOut := expOut ++ [(c, want')]
+        if got != want' || gotCnt != wantCnt then
+          acc := acc.dis s!"event {i-1} client {c}: got {gotCnt} packets [{showPkts got}], model {wantCnt} [{showPkts want'}]"
+        let el := match lvO with | some lv => eligible subs conn lv 0 c | none => false
+        if el && gotCnt != n then
+          acc := acc.fail "qos0:dropped-not-full" s!"event {i-1} client {c}: {gotCnt} of {n} QoS0 copies delivered"
+        else if !el && gotCnt != 0 then
+          acc := acc.fail "fanout:ineligible-served" s!"event {i-1} client {c}: {gotCnt} packets"
     else if k == "t" then
       let c := optStr ev "c"
       if real.contains c then
@@ -196,6 +248,10 @@ def inprocOne : Judge := liftJudge fun input obs => do
             acc := acc.fail (if acked then "resend:after-ack" else "resend:not-oldest")
               s!"event {i-1} client {c}: [{showPkts got}], oldest unacked {id}:{pl}"
           else nontriv := true
+          -- opt-in literal reading of the statement: every unacknowledged message is retransmitted
+          if strict && u.length ≥ 2 && !(u.all fun e => got.any fun p => p.id == e.1 && p.payload == e.2) then
+            acc := acc.fail "resend:younger-not-resent-behind-unacked-head"
+              s!"event {i-1} client {c}: {u.length} unacknowledged, re-sent only [{showPkts got}]"
         | _, _ =>
           if !got.isEmpty then acc := acc.fail "resend:after-ack" s!"event {i-1} client {c}: [{showPkts got}] but nothing pending / offline"
     else if k == "sub" || k == "unsub" || k == "disc" then
@@ -254,13 +310,34 @@ def inprocOne : Judge := liftJudge fun input obs => do
         if gotPipe != wantPipe then
           acc := acc.dis s!"event {i-1} client {c}: pipeline saw {gotPipe}, model {wantPipe}"
           acc := acc.fail "inbound:pipeline-mismatch" s!"event {i-1} client {c}: pipeline saw {gotPipe}, expected {wantPipe}"
+    else if k == "resume" then
+      -- a persistent client's connection ends normally and it reconnects with cleanSession=false WITHOUT
+      -- re-subscribing: its live subscriptions (filter and QoS, the abstract set `subs`) must be routed again;
+      -- the new session object starts with an empty outbound state (pending messages are not persisted)
+      let c := optStr ev "c"
+      if real.contains c && clients.any (fun d => d.id == c && d.pers && !d.ghost) then
+        acc := acc.tag "resume-persistent"
+        let mine : List (List Char × Nat) := (subs.filter (fun e => e.2.1 == c)).reverse.map fun e =>
+          (List.intercalate ['/'] e.1, e.2.2)
+        tst := (step tst (.disconnect c)).1
+        subs := specStep subs (.disconnect c)
+        if !mine.isEmpty then
+          tst := (step tst (.subscribe c mine)).1
+          subs := specStep subs (.subscribe c mine)
+          if mine.any (fun e => e.2 == 1) then acc := acc.tag "resume-with-qos1-subscription"
+        sess := alSet c Sess.init sess
+        unackObs := alSet c [] unackObs
+        pendSince := alSet c [] pendSince
+        idCnt := alSet c 0 idCnt
+        pubSeen := alSet c 0 pubSeen   -- the new connection has its own publish limiter
+        if !online.contains c then online := online ++ [c]
     else if k == "off" then
       online := online.filter (· != optStr ev "c"); acc := acc.tag "client-offline"
     else if k == "on" then
       let c := optStr ev "c"
       if real.contains c && !online.contains c then online := online ++ [c]
     -- packets for clients that should get none at this event (ack / off / on, or other clients at a tick)
-    if k != "m" then
+    if k != "m" && k != "mn" then
       for c in real do
         if !(k == "t" && c == optStr ev "c") && !(getOut so c).isEmpty then
           acc := acc.dis s!"event {i-1}: unexpected packets for {c}"
